@@ -666,6 +666,15 @@ impl IdlSqliteReadTransaction {
         conn.execute("BEGIN DEFERRED TRANSACTION", [])
             .map_err(sqlite_error)?;
 
+        // A deferred transaction only takes its snapshot of the database at the first
+        // statement that reads from it. The caller has already taken its snapshot of the
+        // entry cache, so the database snapshot must be taken now, not whenever the first
+        // cache miss happens to occur - otherwise one read transaction answers some queries
+        // from the cache as it was and others from whatever was committed in the meantime.
+        conn.prepare(&format!("SELECT 1 FROM {db_name}.sqlite_master LIMIT 1"))
+            .and_then(|mut stmt| stmt.exists([]))
+            .map_err(sqlite_error)?;
+
         Ok(IdlSqliteReadTransaction {
             pool,
             conn: Some(conn),
